@@ -104,6 +104,13 @@ fn gen_file(w: &World, scale: Scale, max_recs: u64, max_len: u64) -> FileModel {
                 "chr1:100", "scaffold_1|size123", "lambda", "phiX174", "1", "X", "*", "=", "chr1-2", "chr1:1-100:+",
             ]))
             .to_string(),
+            // an extract of an earlier record, named as samtools faidx heads it: name:beg-end
+            6 if i > 0 => {
+                let base = &plans[w.draw(i as u64) as usize];
+                let l = base.seq.len().max(1) as u64;
+                let b = 1 + w.draw(l);
+                format!("{}:{}-{}", base.name, b, b + w.draw(l - b + 2))
+            }
             // an earlier name in the other letter case, or in another Unicode normal form
             4 if i > 0 => {
                 let base = &plans[w.draw(i as u64) as usize].name;
@@ -146,6 +153,18 @@ fn gen_file(w: &World, scale: Scale, max_recs: u64, max_len: u64) -> FileModel {
         let seq: Vec<u8> = (0..len)
             .map(|i| BASES[(a + i * b + i / 7 + i / 61 + i / 4099) % BASES.len()])
             .collect();
+        // 1 record in 8: a stretch of one repeated symbol (runs of N, gaps, soft-masked bases), which
+        // the position-dependent pattern never produces by itself
+        let mut seq = seq;
+        if len >= 2 && w.chance(1, 8) {
+            let a = w.draw(len as u64) as usize;
+            let l = 1 + w.small(1, (len - a - 1).max(1) as u64) as usize;
+            let c = *w.pick(b"N-nn*.Aa");
+            for x in seq[a..(a + l).min(len)].iter_mut() {
+                *x = c;
+            }
+            w.probe("sequence_with_a_run_of_one_symbol");
+        }
         // 1 record in 15 (small files only) has no bases at all: header line only, and the row
         // samtools faidx writes for it carries 0 for both line widths
         let seq = if scale == Scale::Small && w.chance(1, 15) {
@@ -565,8 +584,22 @@ fn run_history(w: &W, f: &FileModel, steps: u64, allow_faults: bool, allow_cut: 
                     3 => {
                         // the name as it appears in a line of a list, a header or a .fai row: with a
                         // line terminator, a blank, a tab, a NUL, the '>' of its header, a description
-                        let affix = *w.pick(&["x", "\n", "\r\n", "\r", " ", "\t", "\0", "\u{a0}", " desc", "\t1\t2\t3\t4", "\u{feff}", "/1", ":0-1"]);
-                        if w.chance(2, 3) { format!("{}{}", base, affix) } else if w.chance(1, 3) { format!(">{}", base) } else { format!("{}{}", affix, base) }
+                        let affix = *w.pick(&["x", "\n", "\r\n", "\r", " ", "\t", "\0", "\u{a0}", " desc", "\t1\t2\t3\t4", "\u{feff}", "/1", ":0-1", ":1-1", ":1-2", ":2-3", ":1", ":1-"]);
+                        match w.draw(9) {
+                            0..=4 => format!("{}{}", base, affix),
+                            5 => format!(">{}", base),
+                            // what other tools do with a name they cannot find: add or drop the "chr"
+                            // prefix, drop or add a version suffix, cut at a bar
+                            6 => match base.strip_prefix("chr") {
+                                Some(rest) if !rest.is_empty() => rest.to_string(),
+                                _ => format!("chr{}", base),
+                            },
+                            7 => match base.rfind(['.', '|']) {
+                                Some(i) if i > 0 => base[..i].to_string(),
+                                _ => format!("{}{}", base, *w.pick(&[".1", "|x", ".fa"])),
+                            },
+                            _ => format!("{}{}", affix, base),
+                        }
                     }
                     4 => COLLIDING_NAMES[w.draw(COLLIDING_NAMES.len() as u64) as usize].to_string(),
                     5 if w.chance(1, 2) => {
